@@ -20,7 +20,7 @@ type TagKey struct{}
 
 // RouteOpt is the abstract form of per-route options.
 type RouteOpt struct {
-	TS int   // 0 inherit, 1 ignore, 2 redirect, 3 explicit none
+	TS int   // trailing-slash options given to the route, see tsSeq: 0 inherit, 1 ignore(true), 2 redirect(true), 3 ignore(false)+redirect(false), 4 redirect(false), 5 ignore(false), 6 ignore(true)+redirect(true), 7 redirect(true)+ignore(true)
 	MW []int // ids of route-specific middleware
 }
 
@@ -204,13 +204,12 @@ func RouteMW(id int) fox.MiddlewareFunc {
 // FoxOpts converts abstract route options into fox options (the tag annotation is always attached).
 func FoxOpts(tag int, o RouteOpt) []fox.RouteOption {
 	opts := []fox.RouteOption{fox.WithAnnotation(TagKey{}, tag)}
-	switch o.TS {
-	case 1:
-		opts = append(opts, fox.WithIgnoreTrailingSlash(true))
-	case 2:
-		opts = append(opts, fox.WithRedirectTrailingSlash(true))
-	case 3:
-		opts = append(opts, fox.WithIgnoreTrailingSlash(false), fox.WithRedirectTrailingSlash(false))
+	for _, c := range tsSeq(o.TS) {
+		if c.redirect {
+			opts = append(opts, fox.WithRedirectTrailingSlash(c.enable))
+		} else {
+			opts = append(opts, fox.WithIgnoreTrailingSlash(c.enable))
+		}
 	}
 	for _, id := range o.MW {
 		opts = append(opts, fox.WithMiddleware(RouteMW(id)))
@@ -221,15 +220,57 @@ func FoxOpts(tag int, o RouteOpt) []fox.RouteOption {
 // ModelRoute builds the model's record for a route registered with the given options under cfg.
 func ModelRoute(cfg Cfg, method string, p *model.Pattern, tag int, o RouteOpt) *model.Route {
 	r := &model.Route{Method: method, Pattern: p.Raw, Pat: p, Tag: tag, MW: o.MW}
-	switch o.TS {
-	case 0:
-		r.IgnoreTS, r.RedirectTS = cfg.GlobalTS == 1, cfg.GlobalTS == 2
-	case 1:
-		r.IgnoreTS = true
-	case 2:
-		r.RedirectTS = true
+	// the route starts from the router-wide mode; each option call then applies the documented rule: enabling one mode
+	// disables the other, disabling one leaves the other alone
+	r.IgnoreTS, r.RedirectTS = cfg.GlobalTS == 1, cfg.GlobalTS == 2
+	for _, c := range tsSeq(o.TS) {
+		if c.redirect {
+			r.RedirectTS = c.enable
+			if c.enable {
+				r.IgnoreTS = false
+			}
+		} else {
+			r.IgnoreTS = c.enable
+			if c.enable {
+				r.RedirectTS = false
+			}
+		}
 	}
 	return r
+}
+
+type tsCall struct{ redirect, enable bool }
+
+// tsSeq decodes RouteOpt.TS into the sequence of per-route trailing-slash option calls.
+func tsSeq(code int) []tsCall {
+	switch code {
+	case 1:
+		return []tsCall{{false, true}}
+	case 2:
+		return []tsCall{{true, true}}
+	case 3:
+		return []tsCall{{false, false}, {true, false}}
+	case 4:
+		return []tsCall{{true, false}}
+	case 5:
+		return []tsCall{{false, false}}
+	case 6:
+		return []tsCall{{false, true}, {true, true}}
+	case 7:
+		return []tsCall{{true, true}, {false, true}}
+	}
+	return nil
+}
+
+// TSCodeFor returns an option code that makes a route ignore / redirect / do neither, whatever the router-wide mode.
+func TSCodeFor(ignore, redirect bool) int {
+	switch {
+	case ignore:
+		return 1
+	case redirect:
+		return 2
+	}
+	return 3
 }
 
 // TagOf reads the tag a route was created with (-1 for nil, -2 for a route without tag).
